@@ -380,7 +380,21 @@ def check_C14(tier, seed):
 CHECKS = {"C16": check_C16, "C15": check_C15, "C17": check_C17, "C14": check_C14}
 
 
+def _sim(pid):
+    def f(tier, seed):
+        import simprops
+        return simprops.sim_check(pid, tier, seed)
+    return f
+
+
+for _p in ("C01", "C02", "C03", "C04", "C05", "C06", "C07", "C08", "C09", "C10", "C11", "C12", "C13", "C18", "C19"):
+    CHECKS[_p] = _sim(_p)
+
+
 def replay(pid, path):
+    if pid not in ("C14", "C15", "C16", "C17"):
+        import simprops
+        return simprops.sim_replay(pid, path)
     """Prints the recorded failing case and re-runs the property's check (the harness regenerates the case
     deterministically from its seed; the case itself is in the file)."""
     print(open(path).read())
